@@ -1040,6 +1040,10 @@ def stream_death(ctx, corr_failures):
 # source translator (DESIGN.md 3.2): part of the model is regenerated from the source text on every run
 TRUSTED = list(TRUSTED) + [py2lean.trusted_note("approx")]
 PROP_FILES = ["PersimVerif/Props/C08.lean", "PersimVerif/Props/C08Model.lean"] + py2lean.prop_files("approx")
+# landscape engine (py2lean_landscape.py): tools.vectorize, PersistenceLandscaper.transform
+TRUSTED += [py2lean.trusted_note("plvec"), py2lean.trusted_note("pltransform")]
+PROP_FILES += [f for k in ("plvec", "pltransform") for f in py2lean.prop_files(k) if f not in PROP_FILES]
+PROP_FILES = list(dict.fromkeys(PROP_FILES))
 
 
 def large_case_check(c):
@@ -1092,7 +1096,7 @@ def stream_large(ctx):
 
 def pre_build(ctx):
     """source translator: regenerate Generated/Src*.lean from PERSIM_ROOT's source"""
-    py2lean.pre_build(ctx, ("approx",))
+    py2lean.pre_build(ctx, ("approx", "plvec", "pltransform"))
 
 
 def run(ctx):
@@ -1228,3 +1232,4 @@ MANIFEST = {
     "technique": "Lean 4 theorems over a hand-written model + differential correspondence with the real code",
 }
 MANIFEST["note"] += " " + py2lean.manifest_note("approx")
+MANIFEST["note"] += " " + py2lean.manifest_note("plvec") + " " + py2lean.manifest_note("pltransform")
